@@ -359,6 +359,8 @@ def endpoint_skeletons() -> dict[str, dict]:
             "/m/c": {"put": {"operationId": "putPartsC", "requestBody": {"content": {"multipart/form-data": {"schema": ref("PartsC")}}}, "parameters": [param("q", "query", STR)], "responses": {"204": {"description": "none"}}}},
             # a union-typed header (finding C03-F2; kept out of the skeletons other properties share)
             "/h/union": {"get": {"operationId": "headerUnion", "parameters": [param("X-U", "header", {"anyOf": [INT, BOOL]})], "responses": {"204": {"description": "none"}}}},
+            # a parameter described with `content` instead of `schema` (legal OpenAPI; finding C03-F3: dropped without a word)
+            "/p/content": {"get": {"operationId": "contentParam", "parameters": [{"name": "filter", "in": "query", "content": {"application/json": {"schema": obj({"f-a": STR})}}}, param("plain", "query", STR)], "responses": {"204": {"description": "none"}}}},
             "/m/files": {"post": {"operationId": "postPartsFiles", "requestBody": {"content": {"multipart/form-data": {"schema": ref("PartsFiles")}}}, "responses": {"204": {"description": "none"}}}},
         },
     )
